@@ -98,11 +98,11 @@ theorem popS_sim (hT : Twin rec rec') {s s' : St} (hs : s.stack = s'.stack) :
       case ident name =>
         simp only [Env.untracked_getType, Env.untracked_getParam, Env.untracked_getProg]
         cases env.getType name <;> simp [RSim]
-        cases env.getParam name <;> simp [RSim]
-        cases env.getProg name <;> simp [RSim]
+        cases env.getParam name <;> simp
+        cases env.getProg name <;> simp
         rename_i code
         rw [hT env code true log log']
-        cases (rec' env.untracked code true log').res <;> simp [RSim]
+        cases (rec' env.untracked code true log').res <;> simp
       all_goals simp [RSim]
 
 theorem popV_sim (hT : Twin rec rec') {s s' : St} (hs : s.stack = s'.stack) :
@@ -578,7 +578,7 @@ theorem step_sim (hT : Twin rec rec') (hTop : Twin top top') (len : Nat) (i : In
               by_cases hm : env.isMacro fname = true
               · simp only [hm, if_true]
                 exact liftNext_sim (invoke_sim hT hTop (.macro_ fname) .null _ h3)
-              · simp only [hm, if_false]
+              · simp only [hm]
                 cases env.getType fname with
                 | none => simp [RSim, pushV, h3]
                 | some t =>
@@ -712,5 +712,29 @@ theorem checkForConst_const {B : Builtins} {ids : List Str} {code : List Instr} 
   · rw [h'] at h; cases h
   · rw [h'] at h; cases h
     exact ⟨by rw [← compileRun_untracked]; exact hr, hm⟩
+
+/-! ### Non-vacuity -/
+
+private def noB : Builtins := { func := fun _ => none, ctor := fun _ _ => .null }
+/-- `[q]` with `q` unbound: a value (a list holding a Binding failure), so the run is `.ok` … -/
+private def demo : List Instr := [.push (.ident "q".toList), .mkList 1]
+
+example : (runAt noB maxDepth compileEnv demo true []).res = .ok (.list [.err .binding]) := by rfl
+-- … but it met a name it could not resolve, and the compiler's interpreter recorded that:
+example : (runAt noB maxDepth compileEnv demo true []).log.metUnres = true := by rfl
+-- so `check_for_const` leaves the code as it is (before fix 4d08d12: the constant `[<Binding>]`)
+example : checkForConst noB [] demo = .code demo := by rfl
+-- the same run without the flag: same result, nothing in the log (`runAt_untracked`, hypotheses-free)
+example : (runAt noB maxDepth compileEnv0 demo true []).res = .ok (.list [.err .binding]) ∧
+    (runAt noB maxDepth compileEnv0 demo true []).log = [] := ⟨by rfl, by rfl⟩
+-- a run that resolves everything is still folded
+example : checkForConst noB [] [.push (.ident "int".toList), .mkList 1] = .const (.list [.type "int".toList]) := by rfl
+-- the four places that set the flag, in the compiler's interpreter; and a callee that is no name sets none
+example : (runAt noB maxDepth compileEnv [.push (.map []), .push (.ident "f".toList), .access, .mkList 1] true []).log.metUnres = true := by rfl
+example : (runAt noB maxDepth compileEnv [.push (.int 1), .push (.ident "f".toList), .access, .mkList 1] true []).log.metUnres = true := by rfl
+example : (runAt noB maxDepth compileEnv [.push (.ident "f".toList), .call 0, .mkList 1] true []).log.metUnres = true := by rfl
+example : (runAt noB maxDepth compileEnv [.push (.int 1), .call 0, .mkList 1] true []).log.metUnres = false := by rfl
+-- `Twin` is inhabited non-trivially (`runAt_twin`), `RSim` relates states with different logs
+example : Unres.RSim (R.ok 1 { stack := [], log := [unresMarker] }) (R.ok 1 { stack := [], log := [] }) := ⟨rfl, rfl⟩
 
 end Rscel
